@@ -13,7 +13,7 @@ from hgsim.util import canon, digest
 
 ID = "C14"
 LEVEL = "exploration"
-BUDGET = {"quick": (8, 200, 45), "thorough": (16, 12000, 600)}
+BUDGET = {"quick": (8, 500, 90), "thorough": (16, 12000, 600)}
 RULE = (
     "seeded DAGs with 1-3 interrupt nodes at random positions (single/multi output, renamed inputs, sync or async handlers) and sibling nodes ready in "
     "the interrupt's step; a handler script decides which interrupts pause (handler returns None) and which auto-resolve. History: run -> PAUSED -> run "
